@@ -71,6 +71,12 @@ class CallGraph:
                         es.append(Edge(body.path, bb, "mono", m["local_key"], m["inst_def"], "lean_string", line))
                     else:
                         es.append(Edge(body.path, bb, "mono-leaf", None, m["inst_def"], m.get("inst_crate"), line))
+                if name == "core::iter::traits::iterator::Iterator::collect" and t.get("generic_args"):
+                    # collect::<B>() calls <B as FromIterator<_>>::from_iter: link to every local impl for B
+                    tgt_ty = t["generic_args"][-1]
+                    for i in self.F.impls:
+                        if i["trait"] == "core::iter::traits::collect::FromIterator" and i["self"] == tgt_ty and "from_iter" in i["items"]:
+                            es.append(Edge(body.path, bb, "cb", i["items"]["from_iter"], i["items"]["from_iter"], "lean_string", line))
                 for c in t.get("cb_closures", []):
                     es.append(Edge(body.path, bb, "cb", c, c, "lean_string", line))
                 for c in t.get("cb_impls", []):
